@@ -1,12 +1,13 @@
 (* Evaluation of the C07 model on harness-written cases: the model's verdict, its GenHash, and (for
    wrapped Ethereum transactions) its intermediate results are compared with what the real code produced.
    SHA-256 / Keccak-256 are the executable Gallina versions; secp256k1 recovery / verification results are
-   read from the table the harness recorded from libsecp256k1 (the model must ask exactly for an entry
-   the implementation's own digest produced: a miss is a mismatch). *)
+   read from the table the harness recorded from libsecp256k1.  The model must ask exactly for an entry the
+   implementation's own digest produced: a miss is a mismatch (explicitly for the native path; for the
+   Ethereum path a miss yields a sentinel key whose address can match no observation). *)
 From Coq Require Import List NArith ZArith Bool String.
 From V.Base Require Import Hex BigEndian.
 From V.C08 Require Import Model Typed.
-From V.C07 Require Import Sha256 Keccak Model.
+From V.C07 Require Import Fast Model.
 Import ListNotations.
 Local Open Scope N_scope.
 
@@ -24,13 +25,16 @@ Fixpoint lookup (tbl : list oent) (h rs : bytes) (v : N) : option oent :=
   | e :: r => if key_eqb (okey e) h rs v then Some e else lookup r h rs v
   end.
 
+Definition miss_key : bytes := [256].   (* not a byte string: no real key *)
+
 Definition recover_t (tbl : list oent) (h rs : bytes) (v : N) : option bytes :=
   match lookup tbl h rs v with
   | Some (O _ _ _ (Some p) _) => Some (unhex p)
-  | _ => None
+  | Some (O _ _ _ None _) => None
+  | None => Some miss_key
   end.
 
-(* VerifySignature does not take the recovery id: any entry with the same digest and r || s *)
+(* VerifySignature does not take the recovery id: any entry with the same digest, r || s and key *)
 Fixpoint verify_t (tbl : list oent) (pk h rs : bytes) : bool :=
   match tbl with
   | [] => false
@@ -46,16 +50,22 @@ Definition sig_of_hex (s : string) : option sig :=
   | _ => let b := unhex s in Some (mkSig (bev (firstn 32 b)) (bev (firstn 32 (skipn 32 b))) (nth 64 b 0))
   end.
 
-Definition T (src tgt : string) (ty : Z) (time data extra hash sign : string) (nonce : N) (cid : string) : tx :=
-  mkTx (unhex src) (unhex tgt) ty (unhex time) (unhex data) (unhex extra) (unhex hash) (sig_of_hex sign) nonce (unhex cid).
+(* a string field: printable ASCII literally, anything else as hex *)
+Inductive fld := A (s : string) | H (s : string).
+Definition fb (f : fld) : bytes := match f with A s => B s | H s => unhex s end.
+
+Definition T (src tgt : fld) (ty : Z) (time data extra : fld) (hash sign : string) (nonce : N) (cid : fld) : tx :=
+  mkTx (fb src) (fb tgt) ty (fb time) (fb data) (fb extra) (unhex hash) (sig_of_hex sign) nonce (fb cid).
 
 (* what the harness observed by running the pieces of verifyETHTx separately *)
 Inductive eobs :=
 | ENone                                   (* not an Ethereum-typed transaction *)
 | EDecFail                                (* rlp.DecodeBytes failed *)
 | ESender (code : N)                      (* eth_tx.Sender failed: 1 invalid chain id, 2 invalid v/r/s, 3 recovery failed *)
-| EConv (src tgt data extra hash cid : string) (nonce : N).   (* eth_tx.ConvertTx output *)
+| EConv (src tgt data extra : option fld) (hash : option string) (cid : option fld) (nonce : option N).
+  (* eth_tx.ConvertTx output; None = identical to the declared field of the transaction under test *)
 
+(* verdict of VerifyTransaction, tx.GenHash() ("" = not recorded), Ethereum pieces *)
 Inductive obs := Obs (verdict : N) (genhash : string) (e : eobs).
 
 Definition verdict_code (v : verdict) : N :=
@@ -64,65 +74,51 @@ Definition verdict_code (v : verdict) : N :=
 Definition serr_code (e : serr) : N :=
   match e with SInvalidChain => 1 | SInvalidSig => 2 | SRecover => 3 end.
 
-Section Run.
-  Variable tbl : list oent.
-  Let rec_ := recover_t tbl.
-  Let ver_ := verify_t tbl.
+(* the recover query of the native path, when the model reaches it, must be in the table *)
+Definition native_query_ok (tbl : list oent) (gh chain : bytes) (t : tx) : bool :=
+  if negb (bytes_eqb (t_chainid t) chain) then true
+  else if negb (bytes_eqb (t_hash t) gh) then true
+  else match t_sign t with
+       | None => true
+       | Some sg => match norm_recid (sg_v sg) with
+                    | None => true
+                    | Some v => match lookup tbl (t_hash t) (sig_rs sg) v with Some _ => true | None => false end
+                    end
+       end.
 
-  Definition m_verify := verify sha256 keccak256 rec_ ver_.
+Definition ofld (o : option fld) (dflt : bytes) : bytes := match o with Some f => fb f | None => dflt end.
 
-  (* the recover query of the native path, when the model reaches it *)
-  Definition native_query_ok (chain : bytes) (t : tx) : bool :=
-    if negb (bytes_eqb (t_chainid t) chain) then true
-    else if negb (bytes_eqb (t_hash t) (gen_hash sha256 t)) then true
-    else match t_sign t with
-         | None => true
-         | Some sg => match norm_recid (sg_v sg) with
-                      | None => true
-                      | Some v => match lookup tbl (t_hash t) (sig_rs sg) v with Some _ => true | None => false end
-                      end
-         end.
+Definition chk_trace (t : tx) (tr : etrace) (o : eobs) : bool :=
+  match tr, o with
+  | TDecFail, EDecFail => true
+  | TSender k, ESender c => serr_code k =? c
+  | TConv x _, EConv src tgt data extra hash cid nonce =>
+    bytes_eqb (t_source x) (ofld src (t_source t)) && bytes_eqb (t_target x) (ofld tgt (t_target t)) &&
+    bytes_eqb (t_data x) (ofld data (t_data t)) && bytes_eqb (t_extra x) (ofld extra (t_extra t)) &&
+    bytes_eqb (t_hash x) (match hash with Some h => unhex h | None => t_hash t end) &&
+    bytes_eqb (t_chainid x) (ofld cid (t_chainid t)) &&
+    (t_nonce x =? match nonce with Some n => n | None => t_nonce t end)
+  | _, _ => false
+  end.
 
-  (* the recover query of the Ethereum path *)
-  Definition plain_query_ok (h : bytes) (r s : N) (vb : Z) : bool :=
-    let a := Z.to_N (Z.abs vb) in
-    if 256 <=? a then true
-    else let v := (a + 256 - 27) mod 256 in
-         if negb (validate_sig v r s) then true
-         else match lookup tbl h (pad32 r ++ pad32 s) v with Some _ => true | None => false end.
-
-  Definition eth_query_ok (chain : N) (e : etx) : bool :=
-    if negb (protected_v (e_v e)) then plain_query_ok (sighash_homestead keccak256 e) (e_r e) (e_s e) (Z.of_N (e_v e))
-    else if negb (derive_chain_id (e_v e) =? chain) then true
-    else plain_query_ok (sighash_155 keccak256 chain e) (e_r e) (e_s e) (Z.of_N (e_v e) - 2 * Z.of_N chain - 8)%Z.
-
-  Definition chk_eth (chain : N) (t : tx) (o : eobs) : bool :=
-    if negb (t_type t =? eth_type)%Z then match o with ENone => true | _ => false end
-    else
-      let enc := from_hex (t_extra t) in
-      match decode_etx enc, o with
-      | None, EDecFail => true
-      | Some (v, e), ESender c =>
-        eth_query_ok chain e &&
-        match eth_sender keccak256 rec_ chain e with SErr k => serr_code k =? c | SOk _ => false end
-      | Some (v, e), EConv src tgt data extra hash cid nonce =>
-        eth_query_ok chain e &&
-        match eth_sender keccak256 rec_ chain e with
-        | SErr _ => false
-        | SOk a =>
-          let x := convert keccak256 v e a enc in
-          bytes_eqb (t_source x) (unhex src) && bytes_eqb (t_target x) (unhex tgt) &&
-          bytes_eqb (t_data x) (unhex data) && bytes_eqb (t_extra x) (unhex extra) &&
-          bytes_eqb (t_hash x) (unhex hash) && bytes_eqb (t_chainid x) (unhex cid) && (t_nonce x =? nonce)
-        end
-      | _, _ => false
-      end.
-End Run.
-
-Definition check (c : string * N * tx * list oent * obs) : bool :=
+Definition check (c : fld * N * tx * list oent * obs) : bool :=
   let '(chain, chain_n, t, tbl, Obs vd gh eo) := c in
-  let ch := unhex chain in
-  (verdict_code (m_verify tbl ch chain_n t) =? vd) &&
-  bytes_eqb (gen_hash sha256 t) (unhex gh) &&
-  (if (t_type t =? eth_type)%Z then true else native_query_ok tbl ch t) &&
-  chk_eth tbl chain_n t eo.
+  let ch := fb chain in
+  let rec_ := recover_t tbl in
+  let ver_ := verify_t tbl in
+  if (t_type t =? eth_type)%Z then
+    let tr := eth_trace keccak256 rec_ chain_n t in
+    (verdict_code (verdict_of_trace tr) =? vd) && chk_trace t tr eo &&
+    match gh with EmptyString => true | _ => bytes_eqb (gen_hash sha256 t) (unhex gh) end
+  else
+    let g := gen_hash sha256 t in
+    (verdict_code (verify_native_h keccak256 rec_ ver_ g ch t) =? vd) &&
+    bytes_eqb g (unhex gh) && native_query_ok tbl g ch t &&
+    match eo with ENone => true | _ => false end.
+
+(* [check] evaluates exactly the model's [verify] (digest and trace shared instead of recomputed) *)
+Lemma check_uses_verify : forall tbl ch chain_n t,
+  verify sha256 keccak256 (recover_t tbl) (verify_t tbl) ch chain_n t =
+  if (t_type t =? eth_type)%Z then verdict_of_trace (eth_trace keccak256 (recover_t tbl) chain_n t)
+  else verify_native_h keccak256 (recover_t tbl) (verify_t tbl) (gen_hash sha256 t) ch t.
+Proof. reflexivity. Qed.
